@@ -22,6 +22,30 @@ CHECKS = {
    text="same engine; monitor rules allow a write during emit only when the metric plus terminator does not fit in the remaining space or exactly fills the buffer, and require every write to carry all pending metrics; exhaustive on the model (mutants flush-one-early and no-reset-after-flush are refuted by TLC), replayed and trace-validated on the real code with long runs after the first automatic flush.",
    note="as C05",
    tech="TLC exhaustive model checking + replay + trace validation against WriterProp greedy-packing rules"),
+ "C08": dict(engine="queue", cat=MC, ref="DESIGN.md 6/C08",
+   text="TLC checks the complete state graph of Queue.tla (one action per linearisation point of queuing.rs: try_send, separate counter increments, recv, task, handler, panic/respawn, stop marker, helper send, release; handles cloned and dropped) composed with the monitor QueueProp, for capacities 0/1/2/unbounded, up to 3 handles and 3-5 metrics, every ok/err/panic outcome: delivered is a prefix of accepted (exactly once, in acceptance order, one at a time) plus the liveness property 'every accepted metric is eventually delivered' under weak fairness; the pre-repair behaviour (every clone's drop stops the shared worker) is refuted by TLC. TLC-simulated behaviours are replayed step by step on the real sink with a cooperative scheduler parked at the cfg hook points (results and counters compared after every step) and free-running multi-producer stress traces are validated by TLC against the monitor.",
+   note="crossbeam-channel FIFO semantics trusted (bound by replay); liveness on the real code is bounded by a 10 s wait; capacity-0 queues are trace-validated only (whether the worker is parked inside recv is not observable)",
+   tech="TLC safety+liveness model checking of an implementation model x monitor; scheduled replay of TLC behaviours; trace validation of free-running runs"),
+ "C09": dict(engine="queue", cat=MC, ref="DESIGN.md 6/C09",
+   text="same engine; liveness property C09_Live ([](no handles => <>(released and delivered = accepted))) and invariant C09_Safe checked by TLC for every capacity/occupancy/outcome pattern and every timing of the drop; the model with the stop marker lost on a full queue (pre-repair) is refuted. On the real code: scheduled replays include last drops on a completely full queue (helper thread path), drops while the worker is between recv and task, panics while the stop marker is queued; stress runs fill the queue to capacity before the last drop; the wrapped sink's own Drop, q.exit and the return of drop(handle) are observed.",
+   note="as C08; 'eventually' = within 10 s on the real code",
+   tech="TLC liveness checking + scheduled replay + trace validation"),
+ "C10": dict(engine="queue", cat=MC, ref="DESIGN.md 6/C10",
+   text="same engine; invariant |chan| <= capacity and the rule that try_send's result depends on room only, in the model exactly; on free-running traces with the slack of one dequeued-but-not-yet-handed-over metric (sound bounds MaxQ/MinQ), exact comparison in scheduled replays; wrapped sink thread id differs from every caller's; emit results never carry wrapped-sink errors; producers must all return while the wrapped sink is held blocked.",
+   note="as C08",
+   tech="TLC model checking + scheduled replay + trace validation"),
+ "C11": dict(engine="queue", cat=MC, ref="DESIGN.md 6/C11",
+   text="same engine with panic outcomes: TLC explores every assignment of ok/err/panic including consecutive panics and panics while a stop is pending; delivered stays a prefix of accepted across respawns, nothing is redelivered, panics counter = number of panics; replayed and trace-validated on the real sink (panicking wrapped sink, Sentinel respawn).",
+   note="as C08",
+   tech="TLC model checking + scheduled replay + trace validation"),
+ "C15": dict(engine="queue", cat=MC, ref="DESIGN.md 6/C15",
+   text="same engine; try_send/incr_submitted and recv/incr_drained are separate model steps and a sampler performs the two loads of queued() separately: TLC shows the counters exact at quiescence and queued() never wrapping in every interleaving; on the real code counters are compared with the model after every replayed step, a sampling thread runs in the stress scenarios, and quiescent counters must equal accepted / delivered counts.",
+   note="as C08",
+   tech="TLC model checking + scheduled replay with per-step counter comparison + trace validation"),
+ "C16": dict(engine="queue", cat=MC, ref="DESIGN.md 6/C16",
+   text="same engine with and without a configured handler: the monitor requires exactly one handler invocation per wrapped-sink error, same error payload, on the worker thread, before the next metric, never for accepted metrics; exhaustive on the model, replayed and trace-validated on the real builder-configured sink.",
+   note="as C08",
+   tech="TLC model checking + scheduled replay + trace validation"),
 }
 
 def main():
@@ -45,6 +69,7 @@ def main():
     for pid, c in CHECKS.items():
         engines.setdefault(c["engine"], []).append(pid)
     ENG_DESC = {
+      "queue": ("spec/Queue.tla + spec/QueueProp.tla + spec/QueueTrace.tla; tools/eng_queue.py; harness/src/queue.rs", "TLA+ implementation model x monitor with liveness; cooperative-scheduler replay; free-running trace validation"),
       "writer": ("spec/Writer.tla + spec/WriterProp.tla + spec/WriterTrace.tla; tools/eng_writer.py; harness/src/writer.rs", "TLA+ implementation model x property monitor, TLC exhaustive + behaviour replay + trace validation"),
     }
     m = {
